@@ -186,6 +186,124 @@ def task_csearch(ctx, arg):
                      props=['C10'] if 'encode' in k else ['C08', 'C09', 'C10', 'C14', 'C18']) for k, n in sorted(stats.items())]
     return dict(violations=violations, searches=searches)
 
+def task_psearch(ctx, arg):
+    """profile independence on the real code: every request of the limb / codec / group searches is executed by the
+    dev build (debug assertions, overflow checks) and by the release build; any differing reply or panic is a C18 violation"""
+    import driver, search_limbs, search_codec, search_groups
+    dd = driver.DualDriver()
+    t = time.time()
+    n = 0
+    stats_all = {}
+    for mod in (search_limbs, search_codec, search_groups):
+        st, _ = mod.search(dd, ctx.seed, ctx.tier)
+        for k, v in st.items():
+            stats_all[mod.__name__ + '/' + k] = v
+    violations = []
+    seen = set()
+    for fn, args, ra, rb in dd.diffs:
+        if fn in seen:
+            continue
+        seen.add(fn)
+        def show(r):
+            return ' '.join(x.hex() if isinstance(x, (bytes, bytearray)) else str(x) for x in (r[1] if r[0] == 'ok' else r[1:]))[:120] if r[0] != 'ok' else 'ok ' + ' '.join(x.hex() for x in r[1])[:120]
+        violations.append(dict(obligation='profile/' + fn, props=['C18'], summary='%s: dev build -> %s ; release build -> %s' % (fn, show(ra), show(rb)),
+                               replay=dict(kind='hook', hook=fn, args=[a.hex() for a in args], expected='release: ' + show(rb), observed='dev: ' + show(ra), failure='profile-difference', profile='debug'),
+                               input_class='profile-difference'))
+    dd.close()
+    searches = [dict(name='psearch/both-profiles', cases=dd.calls, seconds=round(time.time() - t, 2), props=['C18'])]
+    return dict(violations=violations, searches=searches)
+
+# ---------------------------------------------------------------------------------------------
+# E2: Kani on a scratch copy of the real crate
+
+KANI_GROUPS = {
+    'limbs_linear': dict(harnesses=['u256_add_exact', 'u256_sub_exact', 'u256_neg_exact', 'u256_mul2_exact', 'u256_div2_exact',
+                                    'u256_subtract_modulus_exact', 'u256_set_get_bit'], props=['C06', 'C07', 'C18', 'C13'], timeout=600),
+    'bytes': dict(harnesses=['u256_from_slice_total', 'u256_to_big_endian_total', 'u512_from_slice_total'], props=['C13', 'C18', 'C08', 'C10'], timeout=900),
+    'dec_quick': dict(harnesses=['g1_from_slice_wrong_length', 'g1_from_uncompressed_wrong_length', 'g1_from_compressed_wrong_length',
+                                 'g2_from_slice_wrong_length', 'g2_from_uncompressed_wrong_length', 'g2_from_compressed_wrong_length',
+                                 'g1_from_slice_modular', 'g1_from_uncompressed_modular', 'g1_from_compressed_modular',
+                                 'g2_from_slice_modular', 'g2_from_uncompressed_modular', 'g2_from_compressed_modular'], props=['C08', 'C18'], timeout=900),
+    'enc': dict(harnesses=['g1_to_slice_layout', 'g1_to_uncompressed_layout', 'g1_to_compressed_layout',
+                           'g2_to_slice_layout', 'g2_to_uncompressed_layout', 'g2_to_compressed_layout'], props=['C10', 'C18'], timeout=900),
+    'dispatch': dict(harnesses=['fr_from_slice_dispatch_lo', 'fr_from_slice_dispatch_hi', 'fq_from_slice_dispatch_lo', 'fq_from_slice_dispatch_hi',
+                                'fr_from_hash_total', 'fq_to_big_endian_total'], props=['C13', 'C18'], timeout=1200),
+    'canon': dict(harnesses=['u256_mul_canonical', 'u256_square_canonical', 'sum_of_products_2_canonical'], props=['C07', 'C06', 'C12', 'C18'], timeout=3000),
+    'dec_strict': dict(harnesses=['g1_from_slice_strict', 'g1_from_uncompressed_strict', 'g1_from_compressed_strict',
+                                  'g2_from_slice_strict', 'g2_from_uncompressed_strict', 'g2_from_compressed_strict',
+                                  'g1_from_compressed_parity', 'g2_from_compressed_parity'], props=['C08', 'C18'], timeout=2400),
+}
+
+def kani_scratch(ctx):
+    """scratch copy of /repo with the harness module injected and ark-ff built without asm (A6)"""
+    import re, shutil
+    dst = ctx.scratch_copy('kani')
+    ct = os.path.join(dst, 'Cargo.toml')
+    t = open(ct).read()
+    t2 = re.sub(r'ark-ff\s*=\s*\{\s*version\s*=\s*"([^"]*)"\s*,\s*features\s*=\s*\[\s*"asm"\s*\]\s*\}', r'ark-ff = { version = "\1" }', t)
+    open(ct, 'w').write(t2)
+    shutil.copy(os.path.join(VERIF, 'kani', 'harness.rs'), os.path.join(dst, 'src', 'verif_kani.rs'))
+    with open(os.path.join(dst, 'src', 'lib.rs'), 'a') as fh:
+        fh.write('\n#[cfg(kani)]\nmod verif_kani;\n')
+    return dst
+
+def task_kani(ctx, group):
+    g = KANI_GROUPS[group]
+    obligations = []
+    with ctx.lock('kani'):
+        dst = kani_scratch(ctx)
+        out_json = '/tmp/sm9v_kani/out_%s.json' % group
+        if os.path.exists(out_json):
+            os.remove(out_json)
+        env = dict(os.environ)
+        env['CARGO_TARGET_DIR'] = os.path.join(prep.CACHE, 'target_kani')
+        env['CARGO_NET_OFFLINE'] = 'true'
+        cmd = ['cargo', 'kani', '-Z', 'stubbing', '-Z', 'unstable-options', '-j', str(min(8, len(g['harnesses']))),
+               '--harness-timeout', '%ds' % g['timeout'], '--export-json', out_json, '--output-format', 'terse']
+        for h in g['harnesses']:
+            cmd += ['--harness', h]
+        t0 = time.time()
+        try:
+            p = subprocess.run(cmd, cwd=dst, env=env, capture_output=True, text=True, timeout=g['timeout'] + 600)
+            log = (p.stdout + p.stderr)[-6000:]
+        except subprocess.TimeoutExpired as e:
+            log = 'cargo kani timed out'
+            p = None
+        res = {}
+        cbmc = {}
+        if os.path.exists(out_json):
+            try:
+                d = json.load(open(out_json))
+                for r in d.get('verification_results', {}).get('results', []):
+                    res[r['harness_id'].split('::')[-1]] = r
+                for c in d.get('cbmc', []):
+                    cbmc[c['harness_id'].split('::')[-1]] = c
+            except Exception as e:
+                log += '\njson: %r' % (e,)
+        compile_failed = p is not None and p.returncode != 0 and not res
+        for h in g['harnesses']:
+            r = res.get(h)
+            o = dict(id='kani/' + h, engine='E2 Kani 0.68 (CBMC 6.11) on the real crate', function=h, props=g['props'],
+                     backend='CBMC + ' + str(cbmc.get(h, {}).get('configuration', {}).get('solver', 'cadical')))
+            if r is None:
+                o.update(status='undecided', seconds=0, detail=('build of the harness crate failed: ' if compile_failed else 'no result (timeout / out of memory): ') + log[-700:].replace('\n', ' | '))
+            else:
+                checks = r.get('checks', [])
+                failed = [c for c in checks if c.get('status') in ('Failure', 'Failed')]
+                undet = [c for c in checks if c.get('status') in ('Undetermined',)]
+                o['seconds'] = r.get('duration_ms', 0) / 1000.0
+                o['checks'] = len(checks)
+                if r.get('status') == 'Success':
+                    o.update(status='discharged', detail='%d checks (assertions + overflow/index/unwrap/debug_assert) proved; unwinding assertions on' % len(checks))
+                elif failed and not any('unwinding' in (c.get('description') or '') for c in failed):
+                    o.update(status='refuted', detail='; '.join('%s @ %s:%s' % (c.get('description'), os.path.basename(str(c.get('location', {}).get('file'))), c.get('location', {}).get('line')) for c in failed[:4]))
+                else:
+                    o.update(status='undecided', detail='CBMC did not decide (%s): %s' % (r.get('status'), '; '.join(str(c.get('description')) for c in (failed + undet)[:3])))
+            obligations.append(o)
+        import shutil
+        shutil.rmtree(dst, ignore_errors=True)
+    return dict(obligations=obligations)
+
 # ---------------------------------------------------------------------------------------------
 def setup():
     """MANIFEST.setup_cmd: build what can be built ahead of time (offline)."""
